@@ -31,15 +31,19 @@ fn kvp(k: &str, v: X) -> X {
     X::L(vec![X::b(k), v])
 }
 
-fn headers_of(kind: u128) -> Vec<(&'static str, &'static str)> {
+/// `site`: the origin of the URI the server builds for an origin-form target ("http://localhost", over TLS + HTTP/2
+/// "https://localhost:8443")
+fn headers_of(kind: u128, site: &'static str) -> Vec<(&'static str, &'static str)> {
     match kind {
-        1 => vec![("origin", "http://localhost")],
+        1 => vec![("origin", site)],
         2 => vec![("origin", "http://other.example")],
         3 => vec![("origin", "http://other.example"), ("access-control-request-method", "GET")],
-        4 => vec![("origin", "http://localhost"), ("access-control-request-method", "GET")],
+        4 => vec![("origin", site), ("access-control-request-method", "GET")],
         _ => vec![],
     }
 }
+const SITE: &str = "http://localhost";
+const SITE_H2: &str = "https://localhost:8443";
 
 // -------------------------------------------------------------------------------------------
 // file-system access probe
@@ -249,7 +253,7 @@ impl H1 {
         req.push(b' ');
         req.extend_from_slice(target);
         req.extend_from_slice(b" HTTP/1.1\r\nhost: localhost\r\n");
-        for (n, v) in headers_of(kind) {
+        for (n, v) in headers_of(kind, SITE) {
             req.extend_from_slice(n.as_bytes());
             req.extend_from_slice(b": ");
             req.extend_from_slice(v.as_bytes());
@@ -339,7 +343,7 @@ impl H2 {
         uri.extend_from_slice(target);
         let (Ok(m), Ok(uri)) = (Method::from_bytes(method), Uri::try_from(&uri[..])) else { return Some(None) };
         let mut b = Request::builder().method(m).uri(uri);
-        for (n, v) in headers_of(kind) {
+        for (n, v) in headers_of(kind, SITE_H2) {
             b = b.header(n, v);
         }
         let req = b.body(()).ok()?;
@@ -526,7 +530,7 @@ fn run(x: &X, mode: Mode) -> Option<Option<X>> {
                         built.shared.log.lock().unwrap().clear();
                         let answer: Option<(u16, Vec<u8>)> = match mode {
                             Mode::InProc => {
-                                let hdrs: Vec<X> = headers_of(*kind).into_iter().map(|(n, v)| X::L(vec![X::b(n), X::b(v)])).collect();
+                                let hdrs: Vec<X> = headers_of(*kind, SITE).into_iter().map(|(n, v)| X::L(vec![X::b(n), X::b(v)])).collect();
                                 match pipe::make_request(&built.host_name, method, target, &hdrs, b"") {
                                     None => None,
                                     Some(mut req) => {
